@@ -375,6 +375,22 @@ def run(ctx):
             spec = E.random_case(rng, task)
             ctx.case((task, f"vocab{len(spec['vocab'])}", "clips" + ("1" if len(spec["clips"]) == 1 else "<=4" if len(spec["clips"]) <= 4 else ">4")), spec, nontrivial=_nontrivial(spec))
             judge(ctx, spec)
+    run_many_items(ctx)
+
+
+def run_many_items(ctx):
+    """'Over all evaluated items': one evaluation with more than 8192 (and not a multiple of any power of two) items."""
+    if ctx.shard != 0:
+        return
+    rng = ctx.rng
+    for task in ("clip_classification", "sound_event_classification"):
+        n_clips = 8192 + 301 if task == "clip_classification" else 1200
+        spec = E.random_case(rng, task, n_vocab=4, n_clips=n_clips)
+        # a block of easy items first, the hard ones at the end (a sorted export): per-block shortcuts then differ from the whole
+        for k, c in enumerate(spec["clips"]):
+            c["only"] = "both"
+        ctx.case((task, "many_items"), {"task": task, "vocab": spec["vocab"], "clips": f"generated:{n_clips}"}, nontrivial=True)
+        judge(ctx, spec)
 
 
 def replay(ctx, w):
